@@ -191,6 +191,17 @@ class ListField(Field):
         if not self.field or isinstance(self.field, AnyField):
             return value
 
+        if (
+            isinstance(value, ListProxy)
+            and value.list_field is self
+            and value.cfg is cfg
+        ):
+            # already validated for this field and configuration (for example the proxy built by
+            # to_python() while loading, or the stored value during Config.validate()). Wrapping
+            # it again would leave configuration items pointing to a proxy that is not the one
+            # stored in the configuration, and they report their list index through it.
+            return value
+
         proxy = ListProxy(cfg, self, value)
         return proxy
 
